@@ -186,6 +186,8 @@ def read_ace(line, platform, groups=None, acl_type="extended"):
         valid.append(And_(V(proto) >= 0, V(proto) <= 255))
         proto_name = {6: "tcp", 17: "udp"}.get(proto) if type(proto) is int else None
     elif _isword(w) and w in tb.PROTO:
+        if platform == "nxos" and w not in tb.PROTO_NXOS:
+            raise Reject(f"protocol keyword {w!r} is not valid on nxos")
         proto = tb.PROTO[w]
         proto_name = w
     else:
